@@ -248,7 +248,7 @@ func streamHTTP(o opts) {
 	m := newMeta("http", o.seed)
 	m.Rule = "handler scripts (header edits with canonical and non-canonical key spellings, several field lines, WriteHeader incl. 1xx/101/non-cacheable statuses, several writes crossing and landing exactly on the body limit, Flush, Hijack) behind a real loopback server and the real middleware; Cache-Control values generated from the grammar (case flips, OWS, position, =token, =\"quoted, with commas\", overflowing max-age) plus a malformed stream; each script: 1 miss + 2 hits with map/slice mutation in between; non-trivial = script with a 1xx or a header edit after commit or a body landing on the limit or a forbidding directive on a second field line; distinct by those flags + status"
 	w := newTraceWriter(o.out, "http")
-	nmw := 1 + o.n/150
+	nmw := 1 + o.n/75
 	per := (o.n + nmw - 1) / nmw
 	seq := 0
 	for mi := 0; mi < nmw; mi++ {
@@ -270,6 +270,9 @@ func streamHTTP(o opts) {
 		// every third middleware keeps the policy New installed (the configuration resolved inside New); the TTL is
 		// then read back from the stored entry instead of from a wrapping policy
 		ownPolicy := mi%3 == 2
+		if ownPolicy && (mi/3)%2 == 0 {
+			cfg.CacheableStatus = []int{} // resolved twice inside New (config, then the policy built from it)
+		}
 		mw, err := httpcache.New(cfg)
 		must(err)
 		mw.SetKeyGenerator(httpcache.KeyWithoutQuery())
@@ -528,6 +531,9 @@ func streamHTTP(o opts) {
 			polMu.Lock()
 			pOK, pTTL, pCalled := polOK, polTTL, polCalled
 			polMu.Unlock()
+			if !ownPolicy && stored && pTTL <= 0 {
+				m.violate("C13", fmt.Sprintf("the policy stored a response with TTL %v (must be a positive max-age, the time to a future Expires, or the default TTL): script=%v", pTTL, acts), path)
+			}
 			if ownPolicy {
 				// reconstruct the TTL the internal policy chose from what is left of it (whole seconds for max-age)
 				pOK, pCalled = stored, stored
